@@ -416,15 +416,17 @@ Fixpoint ava_add (k : str) (vs : list rval) (d : ava) : ava :=
   end.
 
 (* one round of list_to_local's loop: Some (key, values) or skipped *)
+(* an Attribute parsed without NameFormat keeps the constructor default of saml.Attribute: the uri format *)
+Definition parsed_format (a : attribute) : str := match at_format a with Some nf => nf | None => NAME_FORMAT_URI end.
 Definition read_attr (acs : list conv) (allow_unknown : bool) (a : attribute) : option (str * list rval) :=
-  match (match at_format a with Some nf => acsd_get nf acs | None => None end) with
+  match acsd_get (parsed_format a) acs with
   | Some c =>
       match ava_from c a with
       | Some kv => Some kv
       | None => if allow_unknown then Some (lcd_ava_from a) else None
       end
   | None =>
-      if (match at_format a with Some nf => str_eqb nf NAME_FORMAT_UNSPECIFIED | None => false end) || allow_unknown
+      if str_eqb (parsed_format a) NAME_FORMAT_UNSPECIFIED || allow_unknown
       then Some (lcd_ava_from a) else None
   end.
 
@@ -453,6 +455,10 @@ Definition attribute_xml (a : attribute) : xml :=
   Node (T "Attribute") ((A "Name", at_name a) :: opt_attr "NameFormat" (at_format a) ++ opt_attr "FriendlyName" (at_friendly a))
        [] (map value_xml (at_values a)).
 Definition attr_statement_xml (l : list attribute) : xml := Node (T "AttributeStatement") [] [] (map attribute_xml l).
+
+(* Assertion.construct: the statement is left out when it has no attribute *)
+Definition statement_xml_opt (l : list attribute) : option xml :=
+  match l with [] => None | _ => Some (attr_statement_xml l) end.
 
 (* harvest: SamlBase.harvest_element_tree for Attribute / AttributeValue / NameID *)
 Definition get_attr (k : str) (l : list (str * str)) : option str :=
@@ -511,6 +517,7 @@ Record args := {
   g_irt : str; g_destination : str; g_sp : str;
   g_sign_response : option bool; g_sign_assertion : option bool; g_encrypt_assertion : option bool;
   g_encrypt_cert : option N;               (* encrypt_cert_assertion handed in by the caller *)
+  g_self_contained : bool;                 (* encrypt_assertion_self_contained *)
   g_session_nooa : option Z
 }.
 
@@ -571,11 +578,35 @@ Definition build_payload (i : idp) (a : args) : payload :=
      p_attributes := match from_local (i_acs i) (g_identity a) (name_form i) with Some l => l | None => [] end;
      p_authn := if has_authn a then
                   Some (match g_class_ref a with
-                        | Some (_ :: _ as cls) => Some (cls, match g_authn_auth a with Some [] => None | x => x end)
+                        | Some ((_ :: _) as cls) => Some (cls, match g_authn_auth a with Some [] => None | x => x end)
                         | _ => None          (* authn_statement(): without a class ref no AuthnContext is built at all *)
                         end,
                         match g_authn_instant a with Some 0 | None => i_now i | Some t => t end)
                 else None |}.
+
+(* the value-carrying parts of the assertion as XML *)
+Definition nameid_xml (n : nameid) : xml :=
+  Node (T "NameID") (opt_attr "NameQualifier" (n_nq n) ++ opt_attr "SPNameQualifier" (n_spq n) ++ opt_attr "Format" (n_format n)) (n_text n) [].
+Definition authn_context_xml (p : payload) : option xml :=
+  match p_authn p with
+  | Some (Some (cls, auth), _) =>
+      Some (Node (T "AuthnContext") [] []
+              (Node (T "AuthnContextClassRef") [] cls [] ::
+               match auth with Some x => [Node (T "AuthenticatingAuthority") [] x []] | None => [] end))
+  | _ => None
+  end.
+Definition issuer_xml (p : payload) : xml :=
+  Node (T "Issuer") [(A "Format", s2l "urn:oasis:names:tc:SAML:2.0:nameid-format:entity")] (p_issuer p) [].
+(* Issuer, NameID, AuthnContext, AttributeStatement of the built assertion *)
+Definition payload_xml (p : payload) : list xml :=
+  issuer_xml p :: nameid_xml (p_name_id p) ::
+  (match authn_context_xml p with Some x => [x] | None => [] end) ++
+  (match statement_xml_opt (p_attributes p) with Some x => [x] | None => [] end).
+
+(* what the IdP's generated metadata says about its keys (entity_descriptor of a
+   configuration with a cert_file): one role with a signing KeyDescriptor *)
+Definition generated_idp_md (eid : str) (key : N) : mdstore :=
+  [(eid, [[{| kd_use := Some SIGNING; kd_certs := [key] |}]])].
 
 (* the SP's own configuration as far as signatures / decryption are concerned *)
 Record sp_keys := { k_md : mdstore;          (* its metadata store (the IdP's generated metadata loaded) *)
@@ -651,7 +682,14 @@ Definition read (s : sp) (issuer : str) (p : payload) (r : response) : result ap
             v_came_from := o_came_from o |}
   end.
 
+(* Entity._response with encrypt_assertion_self_contained = False moves the assertion into the
+   EncryptedAssertion itself; unless signing the assertion has meanwhile turned the message into
+   text, sigver.encrypt_assertion does the move a second time on the now assertion-less response
+   object: the tool finds nothing to encrypt - EncryptError, nothing is built *)
+Definition build_fails (w : wire) (a : args) : bool :=
+  match w_enc w with Some _ => negb (g_self_contained a) && negb (w_asig w) | None => false end.
 Definition roundtrip_with (se : idp -> sp_md -> args -> wire) (i : idp) (m : sp_md) (s : sp) (a : args) : result app_view :=
+  if build_fails (se i m a) a then Err (s2l "EncryptError") else
   read s (i_entity_id i) (build_payload i a) (built_view (se i m a) i a (s_keys s)).
 Definition roundtrip := roundtrip_with sign_encrypt.
 Definition roundtrip_before_fix := roundtrip_with sign_encrypt_before_fix.
@@ -699,6 +737,16 @@ Fixpoint show_xml (t : xml) : val :=
       VL [VS tag; VL (map (fun kv => VL [VS (fst kv); VS (snd kv)]) attrs); VS text; VL (map show_xml kids)]
   end.
 Definition show_parse_xml (o : option xml) : val := show_option show_xml o.
+(* canonical form for comparison with a namespace-aware reader: attributes sorted, namespace declarations dropped *)
+Definition is_xmlns (k : str) : bool := match strip_prefix (s2l "xmlns") k with Some _ => true | None => false end.
+Fixpoint show_xml_canon (t : xml) : val :=
+  match t with
+  | Node tag attrs text kids =>
+      VL [VS tag; VL (map (fun kv => VL [VS (fst kv); VS (snd kv)]) (sort_kv (filter (fun kv => negb (is_xmlns (fst kv))) attrs)));
+          VS text; VL (map show_xml_canon kids)]
+  end.
+Definition show_payload_xml (p : payload) : val := VL (map show_xml_canon (payload_xml p)).
+
 Definition show_opt_str (o : option str) : val := show_option VS o.
 (* a whole (one-element) document around the raw text: illegal characters make it unreadable *)
 Definition unescape_text_doc (s : str) : option str := if forallb xml_char s then unescape_text s else None.
